@@ -7,8 +7,8 @@ Faithful to `hio.base.tyming.Tymer`, `hio.help.timing.MonoTimer` and the real-ti
 `while not self.timer.expired: time.sleep(max(0.0, self.timer.remaining))`, `self.timer.restart()`)
 in the tree under test (with the three `fix:` commits of branch fix/timer).
 
-Time values are `Int` (the adapter uses integers scaled by 2^-10 s, on which the double arithmetic of
-the code is exact).  Python exceptions are values.  The system clock is a parameter: an arbitrary
+Time values are a type parameter `τ` (the driver runs `Int`: the adapter uses integers scaled by 2^-10 s, on which
+the double arithmetic of the code is exact).  Python exceptions are values.  The system clock is a parameter: an arbitrary
 state machine `Clock σ` (readings may stall, jump backwards, overshoot a sleep, or run out).
 -/
 namespace Hio.Timer
@@ -16,8 +16,12 @@ namespace Hio.Timer
 inductive Exn | typeError | retroTimerError
 deriving Repr, DecidableEq
 
+/-! The time type `τ` is a parameter: the model only uses `+`, `-`, `<`, `≤` (decidable), `max` and `0`.
+The driver runs it at `Int`; the theorems hold over every linearly ordered commutative ring (`Int`, `Rat`, …). -/
+variable {τ : Type} [Add τ] [Sub τ] [LT τ] [LE τ] [DecidableLT τ] [DecidableLE τ] [Max τ] [Zero τ]
+
 /-- `float(duration) if duration is not None else <old>` -/
-def durOr (d : Option Int) (old : Int) : Int :=
+def durOr (d : Option τ) (old : τ) : τ :=
   match d with
   | some d => d
   | none => old
@@ -25,53 +29,53 @@ def durOr (d : Option Int) (old : Int) : Int :=
 /-! ## `Tymer` — virtual timer on a `Tymist`'s tyme -/
 
 /-- the tymists a tymer can be wound to: their current tyme and tock -/
-structure TWorld where
-  tyme : Nat → Int
-  tock : Nat → Int
+structure TWorld (τ : Type) where
+  tyme : Nat → τ
+  tock : Nat → τ
 
-structure Tymer where
+structure Tymer (τ : Type) where
   /-- index of the tymist whose `tymen()` closure is held in `._tymth`; `none` = not wound -/
   wound : Option Nat
-  start : Int
-  stop : Int
+  start : τ
+  stop : τ
 deriving Repr, DecidableEq
 
-inductive TOp
-  | setTyme (i : Nat) (v : Int)      -- tymist_i.tyme = v
+inductive TOp (τ : Type)
+  | setTyme (i : Nat) (v : τ)      -- tymist_i.tyme = v
   | tick (i : Nat)                   -- tymist_i.tick()
-  | start (dur : Option Int) (start : Option Int)
-  | restart (dur : Option Int)
+  | start (dur : Option τ) (start : Option τ)
+  | restart (dur : Option τ)
   | wind (i : Nat)
 deriving Repr
 
 namespace Tymer
 
 /-- `.tyme` : `self._tymth() if self._tymth else None` -/
-def now (w : TWorld) (t : Tymer) : Option Int :=
+def now (w : TWorld τ) (t : Tymer τ) : Option τ :=
   match t.wound with
   | some i => some (w.tyme i)
   | none => none
 
-def duration (t : Tymer) : Int := t.stop - t.start
+def duration (t : Tymer τ) : τ := t.stop - t.start
 
 /-- `self.tyme - self._start` (`None - float` raises `TypeError`) -/
-def elapsed (w : TWorld) (t : Tymer) : Except Exn Int :=
+def elapsed (w : TWorld τ) (t : Tymer τ) : Except Exn τ :=
   match t.now w with
   | some n => .ok (n - t.start)
   | none => .error .typeError
 
-def remaining (w : TWorld) (t : Tymer) : Except Exn Int :=
+def remaining (w : TWorld τ) (t : Tymer τ) : Except Exn τ :=
   match t.now w with
   | some n => .ok (t.stop - n)
   | none => .error .typeError
 
-def expired (w : TWorld) (t : Tymer) : Except Exn Bool :=
+def expired (w : TWorld τ) (t : Tymer τ) : Except Exn Bool :=
   match t.now w with
   | some n => .ok (decide (n ≥ t.stop))
   | none => .error .typeError
 
 /-- `start(duration, start)`; returns the new tymer and the returned `._start` -/
-def startOp (w : TWorld) (t : Tymer) (dur start : Option Int) : Except Exn (Tymer × Int) :=
+def startOp (w : TWorld τ) (t : Tymer τ) (dur start : Option τ) : Except Exn (Tymer τ × τ) :=
   let d := durOr dur t.duration
   match start, t.now w with
   | some s, _ => .ok ({ t with start := s, stop := s + d }, s)
@@ -79,12 +83,12 @@ def startOp (w : TWorld) (t : Tymer) (dur start : Option Int) : Except Exn (Tyme
   | none, none => .error .typeError      -- `None + duration`
 
 /-- `restart(duration)` = `start(duration, start=self._stop)` -/
-def restartOp (w : TWorld) (t : Tymer) (dur : Option Int) : Except Exn (Tymer × Int) :=
+def restartOp (w : TWorld τ) (t : Tymer τ) (dur : Option τ) : Except Exn (Tymer τ × τ) :=
   t.startOp w dur (some t.stop)
 
-/-- `Tymer(tymth=…, duration=dur, start=start)` -/
-def new (w : TWorld) (wound : Option Nat) (dur start : Option Int) : Tymer :=
-  let d := durOr dur Gen.tymerDuration
+/-- `Tymer(tymth=…, duration=dur, start=start)`; `ddur` = the class default `Tymer.Duration` -/
+def new (ddur : τ) (w : TWorld τ) (wound : Option Nat) (dur start : Option τ) : Tymer τ :=
+  let d := durOr dur ddur
   let s := match start, wound with
     | some s, _ => s
     | none, some i => w.tyme i
@@ -93,11 +97,11 @@ def new (w : TWorld) (wound : Option Nat) (dur start : Option Int) : Tymer :=
 
 end Tymer
 
-def TWorld.set (w : TWorld) (i : Nat) (v : Int) : TWorld :=
+def TWorld.set (w : TWorld τ) (i : Nat) (v : τ) : TWorld τ :=
   { w with tyme := fun j => if j = i then v else w.tyme j }
 
 /-- one operation of the scenario; `Option Int` is the value returned by `start`/`restart` -/
-def tstep (w : TWorld) (t : Tymer) : TOp → Except Exn (TWorld × Tymer × Option Int)
+def tstep (w : TWorld τ) (t : Tymer τ) : TOp τ → Except Exn (TWorld τ × Tymer τ × Option τ)
   | .setTyme i v => .ok (w.set i v, t, none)
   | .tick i => .ok (w.set i (w.tyme i + w.tock i), t, none)
   | .start d s => match t.startOp w d s with
@@ -107,23 +111,23 @@ def tstep (w : TWorld) (t : Tymer) : TOp → Except Exn (TWorld × Tymer × Opti
     | .ok (t', r) => .ok (w, t', some r)
     | .error e => .error e
   | .wind i =>     -- `wind(tymth)`: rebind, then `start()`
-    match ({ t with wound := some i } : Tymer).startOp w none none with
+    match ({ t with wound := some i } : Tymer τ).startOp w none none with
     | .ok (t', _) => .ok (w, t', none)
     | .error e => .error e
 
 /-- what the adapter reads after every operation -/
-structure TSnap where
-  ret : Option Int
-  duration : Int
-  elapsed : Except Exn Int
-  remaining : Except Exn Int
+structure TSnap (τ : Type) where
+  ret : Option τ
+  duration : τ
+  elapsed : Except Exn τ
+  remaining : Except Exn τ
   expired : Except Exn Bool
 
-def tsnap (w : TWorld) (t : Tymer) (ret : Option Int) : TSnap :=
+def tsnap (w : TWorld τ) (t : Tymer τ) (ret : Option τ) : TSnap τ :=
   { ret := ret, duration := t.duration, elapsed := t.elapsed w, remaining := t.remaining w, expired := t.expired w }
 
 /-- snapshots after each operation; the trace ends (`none`) where an operation raised -/
-def trun (w : TWorld) (t : Tymer) : List TOp → List (Option TSnap)
+def trun (w : TWorld τ) (t : Tymer τ) : List (TOp τ) → List (Option (TSnap τ))
   | [] => []
   | op :: ops => match tstep w t op with
     | .ok (w', t', r) => some (tsnap w' t' r) :: trun w' t' ops
@@ -131,19 +135,19 @@ def trun (w : TWorld) (t : Tymer) : List TOp → List (Option TSnap)
 
 /-! ## `MonoTimer` — wall-clock timer with retrograde compensation -/
 
-structure Mono where
-  start : Int
-  stop : Int
-  last : Int
+structure Mono (τ : Type) where
+  start : τ
+  stop : τ
+  last : τ
   retro : Bool
 deriving Repr, DecidableEq
 
 namespace Mono
 
-def duration (m : Mono) : Int := m.stop - m.start
+def duration (m : Mono τ) : τ := m.stop - m.start
 
 /-- `.latest` on a clock reading `r`: returns `._last` and the updated timer -/
-def latest (m : Mono) (r : Int) : Except Exn (Int × Mono) :=
+def latest (m : Mono τ) (r : τ) : Except Exn (τ × Mono τ) :=
   let delta := r - m.last
   if delta < 0 then
     if m.retro then
@@ -152,33 +156,33 @@ def latest (m : Mono) (r : Int) : Except Exn (Int × Mono) :=
   else .ok (m.last + delta, { m with last := m.last + delta })
 
 /-- `.elapsed` = `self.latest - self._start` -/
-def elapsed (m : Mono) (r : Int) : Except Exn (Int × Mono) :=
+def elapsed (m : Mono τ) (r : τ) : Except Exn (τ × Mono τ) :=
   match m.latest r with
   | .ok (l, m') => .ok (l - m'.start, m')
   | .error e => .error e
 
 /-- `.remaining` (fixed code: `.latest` is evaluated before `._stop` is read) -/
-def remaining (m : Mono) (r : Int) : Except Exn (Int × Mono) :=
+def remaining (m : Mono τ) (r : τ) : Except Exn (τ × Mono τ) :=
   match m.latest r with
   | .ok (l, m') => .ok (m'.stop - l, m')
   | .error e => .error e
 
 /-- `.expired` = `self.latest >= self._stop` -/
-def expired (m : Mono) (r : Int) : Except Exn (Bool × Mono) :=
+def expired (m : Mono τ) (r : τ) : Except Exn (Bool × Mono τ) :=
   match m.latest r with
   | .ok (l, m') => .ok (decide (l ≥ m'.stop), m')
   | .error e => .error e
 
 /-- `start(duration, start=s)` with an explicit start: `._last` is not touched -/
-def startAt (m : Mono) (dur : Option Int) (s : Int) : Mono :=
+def startAt (m : Mono τ) (dur : Option τ) (s : τ) : Mono τ :=
   { m with start := s, stop := s + durOr dur m.duration }
 
 /-- `start(duration)` at the clock reading `r` (fixed code: `._last` is resynchronised to `r`) -/
-def startNow (m : Mono) (dur : Option Int) (r : Int) : Mono :=
-  ({ m with last := r } : Mono).startAt dur r
+def startNow (m : Mono τ) (dur : Option τ) (r : τ) : Mono τ :=
+  ({ m with last := r } : Mono τ).startAt dur r
 
 /-- `restart(duration)` = `start(duration, start=self._stop)` -/
-def restart (m : Mono) (dur : Option Int) : Mono := m.startAt dur m.stop
+def restart (m : Mono τ) (dur : Option τ) : Mono τ := m.startAt dur m.stop
 
 end Mono
 
@@ -186,9 +190,9 @@ end Mono
 
 /-- any clock: `read` = one call of `time.time()` (`none`: the script ran out, the run is cut here),
 `sleep d` = one call of `time.sleep(d)` -/
-structure Clock (σ : Type) where
-  read : σ → Option (Int × σ)
-  sleep : Int → σ → σ
+structure Clock (τ σ : Type) where
+  read : σ → Option (τ × σ)
+  sleep : τ → σ → σ
 
 /-- the scripted clock of the harness: reading m returns `c + incs[0] + … + incs[m]`; the j-th sleep advances by `d + ovs[j]` -/
 structure Script where
@@ -197,7 +201,7 @@ structure Script where
   ovs : List Int
 deriving Repr
 
-def scriptClock : Clock Script where
+def scriptClock : Clock Int Script where
   read s := match s.incs with
     | [] => none
     | d :: ds => some (s.c + d, { s with c := s.c + d, incs := ds })
@@ -207,22 +211,22 @@ def scriptClock : Clock Script where
 
 /-! ### MonoTimer scenario (C08) -/
 
-inductive MOp
+inductive MOp (τ : Type)
   | elapsed | remaining | expired | latest | duration
-  | start (dur : Option Int) (start : Option Int)
-  | restart (dur : Option Int)
+  | start (dur : Option τ) (start : Option τ)
+  | restart (dur : Option τ)
 deriving Repr
 
-inductive MVal
-  | int (v : Int) | bool (b : Bool) | raised (e : Exn)
+inductive MVal (τ : Type)
+  | int (v : τ) | bool (b : Bool) | raised (e : Exn)
 deriving Repr, DecidableEq
 
 /-- `MonoTimer(duration=dur, start=start, retro=retro)`: with `start=None` the constructor reads the clock twice
 (once for the provisional `._start`/`._last`, once in `start()`).  Returns the readings made, and the timer unless
 the clock script ran out. -/
-def Mono.new {σ} (clk : Clock σ) (c : σ) (dur : Int) (start : Option Int) (retro : Bool) : List Int × Option (Mono × σ) :=
+def Mono.new {σ} (clk : Clock τ σ) (c : σ) (dur : τ) (start : Option τ) (retro : Bool) : List τ × Option (Mono τ × σ) :=
   match start with
-  | some s => ([], some (({ start := s, stop := s + dur, last := s, retro := retro } : Mono).startAt (some dur) s, c))
+  | some s => ([], some (({ start := s, stop := s + dur, last := s, retro := retro } : Mono τ).startAt (some dur) s, c))
   | none =>
     match clk.read c with
     | none => ([], none)
@@ -230,10 +234,10 @@ def Mono.new {σ} (clk : Clock σ) (c : σ) (dur : Int) (start : Option Int) (re
       match clk.read c with
       | none => ([r1], none)
       | some (r2, c) =>
-        ([r1, r2], some (({ start := r1, stop := r1 + dur, last := r1, retro := retro } : Mono).startNow (some dur) r2, c))
+        ([r1, r2], some (({ start := r1, stop := r1 + dur, last := r1, retro := retro } : Mono τ).startNow (some dur) r2, c))
 
 /-- one scenario operation: result value, new timer, new clock; `none` = clock script ran out -/
-def mstep {σ} (clk : Clock σ) (m : Mono) (c : σ) : MOp → Option (MVal × Mono × σ)
+def mstep {σ} (clk : Clock τ σ) (m : Mono τ) (c : σ) : MOp τ → Option (MVal τ × Mono τ × σ)
   | .duration => some (.int m.duration, m, c)
   | .restart d => let m' := m.restart d; some (.int m'.start, m', c)
   | .start d (some s) => let m' := m.startAt d s; some (.int m'.start, m', c)
@@ -262,25 +266,97 @@ def mstep {σ} (clk : Clock σ) (m : Mono) (c : σ) : MOp → Option (MVal × Mo
       | .error e => some (.raised e, m, c)
 
 /-- results of the operations in order; `none` marks where the clock script ran out -/
-def mrun {σ} (clk : Clock σ) (m : Mono) (c : σ) : List MOp → List (Option (MVal × σ))
+def mrun {σ} (clk : Clock τ σ) (m : Mono τ) (c : σ) : List (MOp τ) → List (Option (MVal τ × σ))
   | [] => []
   | op :: ops => match mstep clk m c op with
     | some (v, m', c') => some (v, c') :: mrun clk m' c' ops
+    | none => [none]
+
+/-! ## `Timer` and `AsyncTimer` — plain wall-clock timers (no retrograde compensation)
+
+`hio.help.timing.Timer` reads `time.time()`, `AsyncTimer` reads `asyncio.get_event_loop().time()`; apart from the clock
+the two classes are the same code, so one model serves both.  `Doist.ado` paces with an `AsyncTimer` (C07's text is about
+the blocking `do()` loop only; the event-loop clock is monotonic by contract, which is the hypothesis of the theorems). -/
+
+structure PTimer (τ : Type) where
+  start : τ
+  stop : τ
+deriving Repr, DecidableEq
+
+namespace PTimer
+
+def duration (a : PTimer τ) : τ := a.stop - a.start
+def elapsed (a : PTimer τ) (r : τ) : τ := r - a.start
+def remaining (a : PTimer τ) (r : τ) : τ := a.stop - r
+def expired (a : PTimer τ) (r : τ) : Bool := decide (r ≥ a.stop)
+
+/-- `start(duration, start=s)` (for `start=None` the caller passes the clock reading) -/
+def startAt (a : PTimer τ) (dur : Option τ) (s : τ) : PTimer τ :=
+  { start := s, stop := s + durOr dur a.duration }
+
+/-- `restart(duration)` = `start(duration, start=self._stop)` -/
+def restart (a : PTimer τ) (dur : Option τ) : PTimer τ := a.startAt dur a.stop
+
+end PTimer
+
+inductive POp (τ : Type)
+  | elapsed | remaining | expired | duration
+  | start (dur : Option τ) (start : Option τ)
+  | restart (dur : Option τ)
+deriving Repr
+
+/-- `Timer(duration=dur, start=start)` / `AsyncTimer(…)`: with `start=None` `Timer` reads its clock twice (a provisional
+`._start`, then `start()`); `AsyncTimer` takes the provisional value from `time.time()` and reads the loop clock once
+(`twice = false`) -/
+def PTimer.new {σ} (clk : Clock τ σ) (c : σ) (dur : τ) (start : Option τ) (twice : Bool) : Option (PTimer τ × σ) :=
+  match start with
+  | some s => some (({ start := s, stop := s + dur } : PTimer τ).startAt (some dur) s, c)
+  | none =>
+    match clk.read c with
+    | none => none
+    | some (r1, c) =>
+      if twice then
+        match clk.read c with
+        | none => none
+        | some (r2, c) => some (({ start := r1, stop := r1 + dur } : PTimer τ).startAt (some dur) r2, c)
+      else some (({ start := r1, stop := r1 + dur } : PTimer τ).startAt (some dur) r1, c)
+
+def pstep {σ} (clk : Clock τ σ) (a : PTimer τ) (c : σ) : POp τ → Option (MVal τ × PTimer τ × σ)
+  | .duration => some (.int a.duration, a, c)
+  | .restart d => some (.int (a.restart d).start, a.restart d, c)
+  | .start d (some s) => some (.int (a.startAt d s).start, a.startAt d s, c)
+  | .start d none => match clk.read c with
+    | none => none
+    | some (r, c) => some (.int (a.startAt d r).start, a.startAt d r, c)
+  | .elapsed => match clk.read c with
+    | none => none
+    | some (r, c) => some (.int (a.elapsed r), a, c)
+  | .remaining => match clk.read c with
+    | none => none
+    | some (r, c) => some (.int (a.remaining r), a, c)
+  | .expired => match clk.read c with
+    | none => none
+    | some (r, c) => some (.bool (a.expired r), a, c)
+
+def prun {σ} (clk : Clock τ σ) (a : PTimer τ) (c : σ) : List (POp τ) → List (Option (MVal τ × σ))
+  | [] => []
+  | op :: ops => match pstep clk a c op with
+    | some (v, a', c') => some (v, c') :: prun clk a' c' ops
     | none => [none]
 
 /-! ## Real-time pacing: the real branch of `Doist.do` (C07) -/
 
 /-- what the adapter logs: a clock reading made by the timer (`t`), by anybody else (`x`), a `time.sleep(d)` call, the
 beginning of `recur()` number `k` -/
-inductive Ev
-  | t (r : Int) | x (r : Int) | s (d : Int) | c (k : Nat)
+inductive Ev (τ : Type)
+  | t (r : τ) | x (r : τ) | s (d : τ) | c (k : Nat)
 deriving Repr, DecidableEq
 
 inductive End | done | exhausted | fuel | raised
 deriving Repr, DecidableEq
 
 /-- `x` extra clock readings made inside a cycle by a doer -/
-def xreads {σ} (clk : Clock σ) : Nat → σ → List Ev × Option σ
+def xreads {σ} (clk : Clock τ σ) : Nat → σ → List (Ev τ) × Option σ
   | 0, c => ([], some c)
   | x + 1, c => match clk.read c with
     | none => ([], none)
@@ -288,7 +364,7 @@ def xreads {σ} (clk : Clock σ) : Nat → σ → List Ev × Option σ
 
 /-- `while not self.timer.expired: time.sleep(max(0.0, self.timer.remaining))`.
 The real loop is unbounded (a stalled clock spins for ever): fuel; every theorem is for every fuel. -/
-def wait {σ} (clk : Clock σ) : Nat → Mono → σ → List Ev × Except End (Mono × σ)
+def wait {σ} (clk : Clock τ σ) : Nat → Mono τ → σ → List (Ev τ) × Except End (Mono τ × σ)
   | 0, _, _ => ([], .error .fuel)
   | fuel + 1, m, c =>
     match clk.read c with
@@ -313,7 +389,7 @@ def xhead : List Nat → Nat
   | x :: _ => x
 
 /-- `n` more cycles, the next one being number `k`: `recur()`, the doer's extra readings, the wait, `timer.restart()` -/
-def cycles {σ} (clk : Clock σ) (fuel : Nat) : Nat → Nat → Mono → σ → List Nat → List Ev × End
+def cycles {σ} (clk : Clock τ σ) (fuel : Nat) : Nat → Nat → Mono τ → σ → List Nat → List (Ev τ) × End
   | 0, _, _, _, _ => ([], .done)
   | n + 1, k, m, c, xs =>
     match (xreads clk (xhead xs) c).2 with
@@ -326,20 +402,20 @@ def cycles {σ} (clk : Clock σ) (fuel : Nat) : Nat → Nat → Mono → σ → 
          (cycles clk fuel n (k + 1) (m2.restart none) c2 xs.tail).2)
 
 /-- the run proper, from `do()`: `self.timer.start(duration=self.tock)` then the cycles -/
-def doRun {σ} (clk : Clock σ) (fuel : Nat) (m : Mono) (c : σ) (tock : Int) (n : Nat) (xs : List Nat) : List Ev × End :=
+def doRun {σ} (clk : Clock τ σ) (fuel : Nat) (m : Mono τ) (c : σ) (tock : τ) (n : Nat) (xs : List Nat) : List (Ev τ) × End :=
   match clk.read c with
   | none => ([], .exhausted)
   | some (r0, c) =>
     (.t r0 :: (cycles clk fuel n 0 (m.startNow (some tock) r0) c xs).1, (cycles clk fuel n 0 (m.startNow (some tock) r0) c xs).2)
 
 /-- what may happen between construction and `do()` -/
-inductive PreOp
+inductive PreOp (τ : Type)
   | peek                 -- somebody reads `doist.timer.elapsed`
-  | setTock (v : Int)    -- `doist.tock = v`
+  | setTock (v : τ)    -- `doist.tock = v`
 deriving Repr
 
 /-- the pre-run operations: log, timer, clock, tock -/
-def preRun {σ} (clk : Clock σ) : List PreOp → Mono → σ → Int → List Ev × Option (Mono × σ × Int)
+def preRun {σ} (clk : Clock τ σ) : List (PreOp τ) → Mono τ → σ → τ → List (Ev τ) × Option (Mono τ × σ × τ)
   | [], m, c, tock => ([], some (m, c, tock))
   | .setTock v :: ps, m, c, _ => preRun clk ps m c v
   | .peek :: ps, m, c, tock =>
@@ -350,22 +426,22 @@ def preRun {σ} (clk : Clock σ) : List PreOp → Mono → σ → Int → List E
       | .error _ => ([.t r], none)
       | .ok (_, m) => (.t r :: (preRun clk ps m c tock).1, (preRun clk ps m c tock).2)
 
-structure PaceObs where
-  pre : List Ev
-  run : List Ev
+structure PaceObs (τ : Type) where
+  pre : List (Ev τ)
+  run : List (Ev τ)
   fin : End
   /-- `doist.tock` at the moment `do()` is called (`none`: never got there) -/
-  tock : Option Int
+  tock : Option τ
 
-/-- `Tymist.__init__`: `self.tock = float(tock) if tock is not None else self.Tock` -/
-def tockOr (tock0 : Option Int) : Int :=
+/-- `Tymist.__init__`: `self.tock = float(tock) if tock is not None else self.Tock` (`dflt` = the class default `Tymist.Tock`) -/
+def tockOr (dflt : τ) (tock0 : Option τ) : τ :=
   match tock0 with
   | some v => v
-  | none => Gen.tymistTock
+  | none => dflt
 
 /-- `Doist(real=True, tock=tock0)`, the pre-run operations, `do()` with one doer living `n` cycles -/
-def paceRun {σ} (clk : Clock σ) (fuel : Nat) (c : σ) (tock0 : Option Int) (pre : List PreOp) (n : Nat) (xs : List Nat) : PaceObs :=
-  let tock := tockOr tock0
+def paceRun {σ} (dflt : τ) (clk : Clock τ σ) (fuel : Nat) (c : σ) (tock0 : Option τ) (pre : List (PreOp τ)) (n : Nat) (xs : List Nat) : PaceObs τ :=
+  let tock := tockOr dflt tock0
   -- `self.timer = timing.MonoTimer(duration=self.tock)`
   match Mono.new clk c tock none Gen.monoRetroDefault with
   | (rs, none) => ⟨rs.map .t, [], .exhausted, none⟩
